@@ -224,6 +224,37 @@ def run(ctx):
                     logger.removeHandler(h)
                     h.close()
                 reset_logging([name])
+        # ---------------------------------------------------------------- a handler that cannot be built at first
+        # a logger with two file handlers, the second in a directory that does not exist yet: the first factory call fails;
+        # after the directory is created the same factory must give one handler per section (no handler twice)
+        for k in range(2 if not ctx.thorough() else 6):
+            lg_i += 1
+            name = "zcv.c20.late%d" % lg_i
+            late_dir = os.path.join(tmp, "late%d" % lg_i)
+            text = ("<logger>\n name %s\n level info\n <logfile>\n  path %s\n  format a:%%(message)s\n </logfile>\n"
+                    " <logfile>\n  path %s\n  format b:%%(message)s\n </logfile>\n</logger>\n") % (
+                        name, os.path.join(tmp, "late%d_a.log" % lg_i), os.path.join(late_dir, "b.log"))
+            r = load(text)
+            ctx.evaluations += 1
+            if r[0] != "ok":
+                continue
+            f = r[1].loggers[0]
+            try:
+                f()
+                first = "ok"
+            except Exception as e:
+                first = type(e).__name__
+            os.makedirs(late_dir, exist_ok=True)
+            try:
+                logger = f()
+                fmts = [getattr(h.formatter, "_fmt", None) for h in logger.handlers]
+            except Exception as e:
+                fmts = "EXC:" + type(e).__name__
+            ctx.nontriv(("late-handler", k))
+            if fmts != ["a:%(message)s", "b:%(message)s"]:
+                ctx.violate("a logger factory called again after its first call failed (%s) gives handlers %r; one per section expected" % (first, fmts),
+                            {"text": text, "first_call": first, "handlers": fmts}, signature="C20:setup:retry-after-failure")
+            reset_logging([name])
         # ---------------------------------------------------------------- set-up model (ZCV/Model/LoggerSetup.lean)
         _setup_model(ctx, rng, tmp)
         # ---------------------------------------------------------------- formats
@@ -448,7 +479,7 @@ def _setup_model(ctx, rng, tmp):
     (level, propagate, handlers by identity / format / level) are compared with the model of factory.Factory and
     logger.LoggerFactoryBase (driver op `logsetup`)"""
     from ..sexp import Atom
-    for trial in range(60 if ctx.thorough() else 14):
+    for trial in range(120 if ctx.thorough() else 40):
         nf = rng.randint(1, 4)
         pool = ["zcv.c20.s%d" % rng.randint(0, 2), "zcv.c20.t", "root", "zcv.c20.s0"]
         specs, lines = [], []
@@ -456,7 +487,8 @@ def _setup_model(ctx, rng, tmp):
         for i in range(nf):
             ev = (not ev_used) and rng.random() < 0.3
             ev_used = ev_used or ev
-            name = None if ev else rng.choice(pool)
+            prev = [sp[1] for sp in specs if sp[1]]
+            name = None if ev else (rng.choice(prev) if prev and rng.random() < 0.5 else rng.choice(pool))   # the same logger configured twice
             level = rng.choice([10, 13, 20, 30, 47])
             prop = rng.random() < 0.5
             hs = []
@@ -521,7 +553,12 @@ def _setup_model(ctx, rng, tmp):
                 if trial == 0:
                     ctx.sample({"setup_calls": calls, "returned": returned, "world": rw})
                 if m_ret != returned or m_world != rw:
-                    ctx.disagree("logger-setup", {"text": text, "calls": calls}, [returned, rw], [m_ret, m_world])
+                    # the model IS the statement here (C20_logger_setup / C20_factory_idempotent are theorems about it): a
+                    # difference on this input is the property failing on this input
+                    ctx.violate("calling the logger factories %r of this configuration gives loggers %r with state %r; the configured set-up is %r / %r"
+                                % (calls, returned, rw, m_ret, m_world),
+                                {"text": text, "calls": calls, "real": [returned, rw], "configured": [m_ret, m_world]},
+                                signature="C20:setup:differs-from-configured")
         finally:
             for n in names:
                 lg = logging.getLogger(n) if n else logging.getLogger()
